@@ -138,6 +138,7 @@ def alphabet_size(d):
             f = sum(len(it["shorts"]) for it in l["named"] if it["kind"] != "arg")
             g = sum(len(it["shorts"]) for it in l["named"] if it["kind"] == "arg")
             n += f * f + f * g * (len(a["eqvals"]) + 1)
+            n += 2 * f * len([x for x in a["extras"] if x in ("vershort", "helpshort")])
         if l["tail"]["kind"] == "cmd":
             for c in l["tail"]["cmds"]:
                 words |= set(c["names"]) | set(c["shorts"])
@@ -1009,7 +1010,9 @@ def spell_family(seed, n, maxlen=2, budget=9000, vals=None):
         if len(ev) > 7:
             keep = ["", "=", "-x", "%FF"] + rnd.sample([v for v in ev if v not in ("", "=", "-x", "%FF")], 4)
             ev = keep
-        d = mkdef(f"sp{seed}_{i}", level(named, tail), maxlen=maxlen, extras=(), spells=("sep", "eq", "glued"),
+        # the short names of the help / version flags are cluster letters too (with or without a configured version)
+        ex = ("vershort", "helpshort") if ctx == 3 or (ctx == 1 and i % 8 == 1) else ()
+        d = mkdef(f"sp{seed}_{i}", level(named, tail, version=(i % 8 == 7)), maxlen=maxlen, extras=ex, spells=("sep", "eq", "glued"),
                   words=("w",), eqvals=ev, clusters=(ctx in (1, 3)), clusters3=(ctx == 1 and i % 3 == 0))
         trim_to_budget(d, budget)
         out.append(d)
